@@ -154,7 +154,7 @@ def run(tier, seed):
             if n >= 2:
                 from skepticoin.datatypes import Output
                 o0 = base[1].outputs[0]
-                t = Transaction(inputs=list(base[1].inputs), outputs=[Output(o0.value + 1, o0.public_key)] + list(base[1].outputs[1:]))
+                t = Transaction(inputs=list(base[1].inputs), outputs=[Output(o0.value ^ 1, o0.public_key)] + list(base[1].outputs[1:]))
                 seq.append(('output-value', [base[0], t] + base[2:]))
                 seq.append(('dup-last', base + [base[-1]]))
                 seq.append(('reversed-tail', [base[0]] + base[1:][::-1]))
@@ -174,13 +174,13 @@ def run(tier, seed):
                     # an output value changed): the commitment follows the content
                     alt = list(txs)
                     try:
-                        alt[-1].outputs[0].value = alt[-1].outputs[0].value + 1
+                        alt[-1].outputs[0].value = alt[-1].outputs[0].value ^ 1
                         want_ids = [spec.sha256d(t.serialize()) for t in alt]
                         if C.calc_merkle_root_hash(alt) != MT.get_merkle_root(want_ids):
                             ck.violation('validator-root-stale-object', 'calc_merkle_root_hash over transaction objects one of '
                                          'which was altered in place after its id had been used is not the commitment of the '
                                          'ids of what the list now encodes to', {'at': 'object-altered-in-place'})
-                        alt[-1].outputs[0].value = alt[-1].outputs[0].value - 1
+                        alt[-1].outputs[0].value = alt[-1].outputs[0].value ^ 1
                     except AttributeError:
                         pass
                 if name == 'inplace-before':
